@@ -2227,7 +2227,7 @@ bool IGXMLScanner::scanStartTagNS(bool& gotData)
 
     if (fGrammarType == Grammar::DTDGrammarType) {
 
-        if (!fSkipDTDValidation) {
+        if (!(fSkipDTDValidation && fDoSchema)) {
             elemDecl = fGrammar->getElemDecl(
                 fEmptyNamespaceId, 0, qnameRawBuf, Grammar::TOP_LEVEL_SCOPE
             );
